@@ -359,7 +359,7 @@ pub fn run(rep: &mut Report) {
     let thorough = rep.is_thorough();
     rep.exhaustive = false;
     let bound = if thorough { 3 } else { 2 };
-    let per = if thorough { 240.0 } else { 9.0 };
+    let per = if thorough { 400.0 } else { 60.0 }; // safety net: the bounds below are chosen so that it is not needed
     for kind in ["disable-enable", "stop-restart", "reset-enable"] {
         run_one(rep, Sc12 { kind, kicks: 1, mutex: false }, bound, per);
     }
